@@ -726,6 +726,33 @@ def sqrt_real(rng, n):
     return lines
 
 
+def sqrt_wide_lines(rng, per):
+    """sqrt at precisions beyond 237 bits and at precisions that fill whole words: deep subnormals (the Newton iteration
+    needs (bias + p)/2 steps there), arguments one or two floats below / above a power of four (the rounding carry runs
+    through every word of the significand), every mode"""
+    lines = []
+    for (E, P) in [(10, 300), (15, 256), (11, 280), (15, 128), (11, 192), (15, 64), (12, 330), (10, 242)]:
+        for m in MODES:
+            s = Sem(E, P, m)
+            for _ in range(per):
+                k = rng.randrange(5)
+                if k == 0:      # deep subnormal
+                    bits = rng.randrange(1, max(2, P // 8))
+                    a = ftok("N", 0, s.emin, rng.getrandbits(bits) | 1)
+                elif k == 1:    # subnormal, any depth
+                    a = ftok("N", 0, s.emin, rng.randrange(1, 2 ** (P - 1)))
+                elif k == 2:    # just below a power of four: 4^j - d ulps
+                    j = rng.randrange(-20, 21)
+                    a = ftok("N", 0, 2 * j - 1, 2 ** P - rng.choice([1, 1, 2, 3]))
+                elif k == 3:    # just above a power of four / of two
+                    j = rng.randrange(-40, 41)
+                    a = ftok("N", 0, j, 2 ** (P - 1) + rng.choice([0, 1, 2]))
+                else:
+                    a = rand_finite(rng, s, 0)
+                lines.append("sqrt %s %s" % (s, a))
+    return lines
+
+
 def rand_prog(rng, max_len=12, fmts=None, allow_slow=True):
     """random expression DAG; results are fed back as operands across formats and modes"""
     fmts = fmts or [(5, 11), (8, 8), (8, 24), (11, 53), (4, 3), (3, 4), (5, 4), (15, 64), (10, 120), (6, 70), (11, 128), (8, 64), (9, 65)]
@@ -1076,7 +1103,7 @@ def parse_lines(rng, n):
 
 
 # ---------------------------------------------------------------- C15-C18, C20
-TRANS_FMTS_Q = [(5, 11), (8, 8), (8, 24), (11, 53), (15, 64), (15, 113), (10, 120), (19, 237)]
+TRANS_FMTS_Q = [(5, 11), (8, 8), (8, 24), (11, 53), (15, 64), (15, 113), (10, 120), (19, 237), (12, 260), (12, 340), (13, 420), (13, 480)]
 TRANS_FMTS_T = TRANS_FMTS_Q + [(12, 190), (12, 200), (12, 300), (13, 500), (14, 1024), (6, 20), (5, 8), (9, 33)]
 
 
@@ -1191,7 +1218,8 @@ def frac_structured_lines(rng, n):
     subnormals, and formats whose exponent width equals the bit length of the precision (the widening rule's boundary)"""
     from fractions import Fraction
     lines = []
-    fm = [(8, 24), (11, 53), (15, 64), (15, 113), (10, 120), (19, 237), (6, 53), (6, 43), (7, 100), (5, 20), (4, 12), (8, 130), (7, 64)]
+    fm = [(8, 24), (11, 53), (15, 64), (15, 113), (10, 120), (19, 237), (6, 53), (6, 43), (7, 100), (5, 20), (4, 12), (8, 130), (7, 64),
+          (19, 320), (12, 400), (20, 512), (4, 100), (5, 160)]   # beyond 256 bits; precision far beyond the exponent range
     tries = 0
     while len(lines) < n and tries < 40 * n:
         tries += 1
